@@ -197,7 +197,7 @@ pub fn record(pool_path: &str, w: &mut dyn Write, seed: u64, n_events: usize) {
     }
     assert!(!polys.is_empty() && !lines.is_empty(), "empty pool");
     let mut rng = StdRng::seed_from_u64(seed ^ 0xC04);
-    let maps: Vec<ExactMap> = exact_maps().into_iter().filter(|m| !m.name.starts_with("scale_2m40") && m.name != "scale_2m80" && m.name != "scale_2p100" && m.name != "aniso" && m.name != "shear_huge").collect();   // incl. unimodular shears: general slopes
+    let maps: Vec<ExactMap> = exact_maps().into_iter().filter(|m| !m.name.starts_with("scale_2m40") && m.name != "scale_2m80" && m.name != "scale_2p100" && m.name != "scale_2p-11" && m.name != "aniso" && m.name != "shear_huge").collect();   // incl. unimodular shears: general slopes
     let ops = [OpType::Intersection, OpType::Union, OpType::Difference, OpType::Xor];
     let empty_mp = MultiPolygon::<f64>::new(vec![]);
     let empty_poly = MultiPolygon::new(vec![Polygon::new(LineString::new(vec![]), vec![])]);
